@@ -916,9 +916,10 @@ bigbit_case(long idx, void *ctx)
     (void)ctx;
     static const int cyc[6][4] = {{13, 7, 32, 1}, {8, 8, 8, 8}, {31, 17, 9, 2}, {32, 32, 32, 32}, {1, 2, 7, 15}, {16, 9, 23, 5}};
     const int *w = cyc[idx % 6];
+    int        variant = (int)(idx / 6); /* 0 written once, 1 rewritten in the same session, 2 rewritten after reopening */
     int cfg[2] = {3, (int)idx};
     mc_set_config(cfg, 2, "bigbit");
-    mc_set_case("large bit element, width cycle %d,%d,%d,%d", w[0], w[1], w[2], w[3]);
+    mc_set_case("large bit element, width cycle %d,%d,%d,%d%s", w[0], w[1], w[2], w[3], variant == 0 ? "" : variant == 1 ? ", written a second time with other content" : ", written a second time with other content after close/reopen");
     long          nbits = 0, target = 9000L * 8;
     static uint8 *bv;
     if (!bv)
@@ -945,6 +946,35 @@ bigbit_case(long idx, void *ctx)
     if (Hendbitaccess(bid, 0) == FAIL) {
         mc_violation("bigbit:end", "Hendbitaccess failed");
         return;
+    }
+    if (variant) {
+        /* the whole element is written again with other content (same widths, so the same length), in the same session or
+           after the file has been closed and opened again: existing data lies behind every buffer block that is flushed */
+        if (variant == 2 && (Hclose(fid) == FAIL || (fid = Hopen(PATH, DFACC_RDWR, 0)) == FAIL)) {
+            mc_violation("bigbit:reopen", "reopen for update failed");
+            return;
+        }
+        bid = Hstartbitwrite(fid, TAG, 1, 0);
+        if (bid == FAIL) {
+            mc_violation("bigbit:start", "Hstartbitwrite on the existing element failed");
+            return;
+        }
+        long total = nbits;
+        nbits      = 0;
+        for (int i = 0; nbits < total; i++) {
+            int    c = w[i % 4];
+            uint32 d = pattern(c, i + 7777);
+            if (Hbitwrite(bid, c, d) != c) {
+                mc_violation("bigbit:write", "rewriting: Hbitwrite(count %d) at bit %ld failed", c, nbits);
+                return;
+            }
+            for (int b = c - 1; b >= 0; b--)
+                bv[nbits++] = (uint8)((d >> b) & 1u);
+        }
+        if (Hendbitaccess(bid, 0) == FAIL) {
+            mc_violation("bigbit:end", "Hendbitaccess after the rewrite failed");
+            return;
+        }
     }
     for (int phase = 0; phase < 2; phase++) {
         if (phase == 1 && (Hclose(fid) == FAIL || (fid = Hopen(PATH, DFACC_READ, 0)) == FAIL)) {
@@ -1005,7 +1035,8 @@ bigbit_case(long idx, void *ctx)
     }
     Hclose(fid);
     mc_outcome(mc_hash_i(MC_H0, 777000 + idx));
-    mc_sample("large bit element (%ld bits, width cycle %d,%d,%d,%d): sequential re-partitioned read + bit seeks at every offset within 34 bits of the 4096/8192-byte buffer boundaries", nbits, w[0], w[1], w[2], w[3]);
+    if (!variant)
+        mc_sample("large bit element (%ld bits, width cycle %d,%d,%d,%d): sequential re-partitioned read + bit seeks at every offset within 34 bits of the 4096/8192-byte buffer boundaries", nbits, w[0], w[1], w[2], w[3]);
 }
 
 /* ------------------------------------------------------------------ main */
@@ -1137,7 +1168,7 @@ C05_main(const char *tier, const char *replay)
     mc_foreach(nbit, bitmix_case, NULL, 1, 120);
     mc_round_end();
     mc_round_begin("bit I/O: large elements, seeks around the 4096-byte buffer boundaries");
-    mc_foreach(6, bigbit_case, NULL, 1, 300);
+    mc_foreach(18, bigbit_case, NULL, 1, 300);
     mc_round_end();
     mc_count("evaluations", NSTR * NCODERS + NNB + 2 * nbit + 6);
     mc_rule("byte coders %d x %ld input strings (all binary strings up to length %d, ternary strings with a third symbol, run-structured strings around the "
